@@ -1769,13 +1769,14 @@ impl PeerConnection {
                     } else if attr.key == "extmap"
                         && let Some(val) = &attr.value
                     {
-                        if val.contains("urn:ietf:params:rtp-hdrext:sdes:rtp-stream-id") {
+                        let uri = PeerConnectionInner::extmap_uri(val);
+                        if uri == Some("urn:ietf:params:rtp-hdrext:sdes:rtp-stream-id") {
                             if let Some(id_str) = val.split_whitespace().next()
                                 && let Ok(id) = id_str.parse::<u8>()
                             {
                                 rid_ext_id = Some(id);
                             }
-                        } else if val.contains(crate::sdp::ABS_SEND_TIME_URI)
+                        } else if uri == Some(crate::sdp::ABS_SEND_TIME_URI)
                             && let Some(id_str) = val.split_whitespace().next()
                             && let Ok(id) = id_str.parse::<u8>()
                         {
@@ -5400,6 +5401,14 @@ impl PeerConnectionInner {
         (rid_id, repaired_rid_id)
     }
 
+    /// URI of an `a=extmap` value, `<id>[/<direction>] <URI> [<attributes>]`
+    /// (RFC 8285 5).  Extensions are identified by the whole URI: a substring
+    /// test would also accept e.g. `.../abs-send-time-v2` or
+    /// `...:repaired-rtp-stream-id`.
+    fn extmap_uri(value: &str) -> Option<&str> {
+        value.split_whitespace().nth(1)
+    }
+
     fn get_remote_extmap_id(&self, mid: &str, uri: &str) -> Option<String> {
         let remote = self.remote_description.lock();
         if let Some(desc) = &*remote {
@@ -5409,7 +5418,7 @@ impl PeerConnectionInner {
                     continue;
                 }
                 let val = attr.value.as_ref()?;
-                if val.contains(uri)
+                if Self::extmap_uri(val) == Some(uri)
                     && let Some(id_str) = val.split_whitespace().next()
                 {
                     return Some(id_str.to_string());
@@ -6012,7 +6021,7 @@ impl RtpTransceiver {
 
             let id = extmap
                 .iter()
-                .find(|(_, uri)| uri.contains("rtp-stream-id"))
+                .find(|(_, uri)| uri.as_str() == "urn:ietf:params:rtp-hdrext:sdes:rtp-stream-id")
                 .map(|(id, _)| *id);
             transport.set_rid_extension_id(id);
 
